@@ -161,6 +161,8 @@ where
     }
 
     fn solve(&mut self, timeout: Duration) -> Result<Path<S>, PlanningError> {
+        #[cfg(feature = "verif")]
+        use crate::verif::Instant;
         // Ensure setup has been called.
         let pd = self
             .problem_def
@@ -232,5 +234,16 @@ where
             }
         }
         // TODO: Limit iteration counts and add Err(PlanningError::NoSolutionFound)
+    }
+}
+
+#[cfg(feature = "verif")]
+impl<S: State + Clone, SP: StateSpace<StateType = S>, G: Goal<S>> RRT<S, SP, G> {
+    /// Read-only snapshot of the search tree: (state, parent index).
+    pub fn verif_tree(&self) -> Vec<(S, Option<usize>)> {
+        self.tree
+            .iter()
+            .map(|n| (n.state.clone(), n.parent_index))
+            .collect()
     }
 }
